@@ -65,6 +65,8 @@ def run(ctx):
         "stix2.utils::is_object", "stix2.utils::is_stix_type", "stix2.utils::is_sdo", "stix2.utils::is_sco",
         "stix2.utils::is_sro", "stix2.utils::is_marking", "stix2.registry::class_for_type"})
     run.floor("C04.custom-by-version", 6)
+    from .hidden_state import rule_no_hidden_state
+    ctx.do(rule_no_hidden_state, "C04.history-independence")
 
 
 def stores_self_switch(prog, cls):
